@@ -1031,3 +1031,23 @@ func (s *Sim) Tail(n int) []TraceEntry {
 
 // Current returns the sim (nil outside a simulation).
 func Current() *Sim { return active.Load() }
+
+// CurrentGID returns the structural id of the calling simulated goroutine ("" outside).
+//
+//go:norace
+func CurrentGID() string {
+	s := active.Load()
+	if s == nil {
+		return ""
+	}
+	raceDisable()
+	id := goid()
+	s.mu.Lock()
+	g := s.lookup(id)
+	s.mu.Unlock()
+	raceEnable()
+	if g == nil {
+		return ""
+	}
+	return g.id
+}
